@@ -466,6 +466,11 @@ class CallMixin:
         if init is not None and init[0] == "method":
             fo_closure = self.closure_for_class(init[2].cid) or cls.closure
             self.call_function(init[1], fo_closure, [obj] + list(args), kwargs, node, anchor)
+            from .contract import CLASS_INVARIANTS
+            if ci.name in CLASS_INVARIANTS:
+                # constructed objects satisfy their class invariant in later visible states
+                objs = self.st.ghost.setdefault("_inv_objs", [])
+                objs.append(((ci.name, str(obj)), (ci.name, obj, None)))
         else:
             ext = [b.split(".")[-1] for b in self.index.extern_bases(ci)]
             if "dict" in ext:
